@@ -582,6 +582,22 @@ impl<'a, T: Read + Write + Seek> PointCloudWriter<'a, T> {
     }
 }
 
+#[cfg(e57_verif)]
+impl<T: Read + Write + Seek> PointCloudWriter<'_, T> {
+    /// Verification hook: lower the packet capacity so that every packet-cut phase
+    /// can be reached with tiny files. Values above the computed capacity are ignored.
+    pub fn verif_set_max_points_per_packet(&mut self, n: usize) {
+        if n >= 1 && n <= self.max_points_per_packet {
+            self.max_points_per_packet = n;
+        }
+    }
+
+    /// Verification hook: the packet capacity in use.
+    pub fn verif_max_points_per_packet(&self) -> usize {
+        self.max_points_per_packet
+    }
+}
+
 fn update_min<T: PartialOrd>(value: T, min: &mut Option<T>) {
     if let Some(current) = min {
         if *current > value {
